@@ -2,9 +2,10 @@
    intact.  Model: Model/Task.v (the per-file task of searchkit/task.py);
    specification: Spec/Task.v.  Oracles: re.match / re.search per (pattern,
    line) and (hint, line) - quantified over in every theorem. *)
-From Coq Require Import ZArith List Bool.
-From SK Require Import Model.Task Spec.Task Proofs.TaskFlush Proofs.TaskLoop
-     Proofs.TaskSimple Proofs.TaskGating Gen.Params.
+From Coq Require Import String ZArith List Bool.
+From SK Require Import Model.Skel Model.Stm Model.Task Model.TaskSk Spec.Task
+     Proofs.TaskFlush Proofs.TaskLoop Proofs.TaskSimple Proofs.TaskGating
+     Proofs.TaskSk Gen.Params Gen.Skeleton Gen.SkelTree Gen.XTask.
 Import ListNotations.
 Open Scope Z_scope.
 
@@ -110,6 +111,102 @@ Proof.
   apply simple_search_exact. exact C01_transit_max_positive.
 Qed.
 
+(* ---- T1: the model mirrors the CURRENT source, function by function ----
+   [xshape tk_f sk_f]: the control skeleton of f regenerated from the source
+   (calls, raises, if / loop / try nesting, and whether each exit is a
+   return, a break or a continue; reads, writes and logging erased).  The
+   expected shapes are in Model/TaskSk.v, every node annotated with the
+   branch of Model/Task.v it stands for.  A dropped / re-ordered / re-nested
+   call, test, loop or handler, or a changed exit kind, breaks these. *)
+Theorem C01_searchdef_run_shape :
+  xshape tk_searchdef_run sk_searchdef_run = Some x_searchdef_run.
+Proof. vm_compute. reflexivity. Qed.
+
+Theorem C01_flush_results_buffer_shape :
+  xshape tk_flush_results_buffer sk_flush_results_buffer
+  = Some x_flush_results_buffer.
+Proof. vm_compute. reflexivity. Qed.
+
+Theorem C01_simple_search_shape :
+  xshape tk_simple_search sk_simple_search = Some x_simple_search.
+Proof. vm_compute. reflexivity. Qed.
+
+Theorem C01_store_result_shape :
+  xshape tk_store_result sk_store_result = Some x_store_result.
+Proof. vm_compute. reflexivity. Qed.
+
+Theorem C01_run_search_shape :
+  xshape tk_run_search sk_run_search = Some x_run_search.
+Proof. vm_compute. reflexivity. Qed.
+
+Theorem C01_execute_shape : xshape tk_execute sk_execute = Some x_execute.
+Proof. vm_compute. reflexivity. Qed.
+
+Theorem C01_put_result_shape :
+  xshape tk_put_result sk_put_result = Some x_put_result.
+Proof. vm_compute. reflexivity. Qed.
+
+(* SearchDef.run: executing the extracted skeleton - hint_search /
+   pattern_match being the oracles, the three tests being `self.hint`,
+   `not ret`, `ret`, the loop ranging over the pattern list and LEAVING at
+   the first match - is sd_run, for every definition (any number of
+   patterns), every oracle and every line *)
+Theorem C01_searchdef_run_is_sd_run :
+  forall (line : Type) omatch ohint (d : sdef) (l : line),
+    on_shape (xshape tk_searchdef_run sk_searchdef_run)
+             (run_searchdef_tree line omatch ohint d l) =
+    Some (sd_run line omatch ohint d l).
+Proof. exact (searchdef_on_shape _ C01_searchdef_run_shape). Qed.
+
+(* the local expressions of _flush_results_buffer that are not events:
+   limit = MAX, buffer[:limit], range(limit), pop(0), limit -= 1 - as
+   extracted from the source they are the ones flush_loop uses *)
+Theorem C01_flush_source_expressions :
+  mkFlSrc flush_limit_init flush_slice_upper flush_pop_count flush_pop_index
+          flush_on_index_error = fl_src_model.
+Proof. reflexivity. Qed.
+
+(* _flush_results_buffer: executing the extracted skeleton with those
+   expressions (while buffer: try [slice; put; pop x limit] except
+   IndexError: limit - 1) is flush_loop, for every MAX (also <= 0: both
+   spin), every buffer, every result type *)
+Theorem C01_flush_results_buffer_is_flush_loop :
+  forall (R : Type) (MAX : Z) (buf : list R) (coll : list (list R)),
+    on_shape (xshape tk_flush_results_buffer sk_flush_results_buffer)
+             (fun t => run_flush_tree R
+                         (mkFlSrc flush_limit_init flush_slice_upper
+                                  flush_pop_count flush_pop_index
+                                  flush_on_index_error) t MAX buf coll) =
+    Some (flush_loop R (S (length buf)) MAX buf coll).
+Proof.
+  exact (flush_on_shape _ _ C01_flush_results_buffer_shape
+                        C01_flush_source_expressions).
+Qed.
+
+(* _simple_search flushes when `len(buffer) >= NUM_BUFFERED_RESULTS`: the
+   extracted test is the one in [push] *)
+Theorem C01_flush_threshold_is_source :
+  forall buffer_len nbuf, simple_flush_test buffer_len nbuf
+                          = (nbuf <=? buffer_len).
+Proof. reflexivity. Qed.
+
+(* enumerate(fd, start=1): lines_loop starts at 0 and numbers ln + 1 *)
+Theorem C01_enumerate_start_is_source : enumerate_start = 0 + 1.
+Proof. reflexivity. Qed.
+
+(* store_result: parts 1 .. n from range(1, n + 1), part 0 for no groups *)
+Theorem C01_store_result_indices :
+  forall g0 gs,
+    let n := Z.of_nat (length gs) in
+    map fst (store_result (g0 :: gs)) =
+    if n =? 0 then [store_whole_index n]
+    else range_z (store_range_first n) (store_range_stop n).
+Proof.
+  exact (store_result_indices store_range_first store_range_stop
+           store_whole_index (fun _ => eq_refl) (fun _ => eq_refl)
+           (fun _ => eq_refl)).
+Qed.
+
 (* ---- non-vacuity ---- *)
 (* patterns 1,2,3; hint 7; values are ids.  d1 = [p1 (no groups); p2 (2
    groups)] with hint 7, d2 = [p3 (1 group)] without contents, d1 registered
@@ -156,3 +253,6 @@ Print Assumptions C01_flush_needs_positive_max.
 Print Assumptions C01_collection_is_emitted_stream.
 Print Assumptions C01_numbering_from_first_searched_line.
 Print Assumptions C01_simple_search_exact_current_constants.
+Print Assumptions C01_searchdef_run_is_sd_run.
+Print Assumptions C01_flush_results_buffer_is_flush_loop.
+Print Assumptions C01_store_result_indices.
